@@ -28,6 +28,8 @@ def _apply_ctx_ops(ctx, ops):
             ctx[op[1]] = copy.deepcopy(op[2])
         elif k == "app":
             ctx.setdefault(op[1], []).append(op[2])
+        elif k == "pop":
+            ctx.pop(op[1], None)
 
 
 class Builder:
@@ -213,7 +215,7 @@ class Builder:
 
         def sync_eff(interp, ctx, e):
             k = e[0]
-            if k in ("inc", "set", "app"):
+            if k in ("inc", "set", "app", "pop"):
                 _apply_ctx_ops(ctx, [e])
             elif k == "slow":
                 env.busy(e[1])
